@@ -272,6 +272,214 @@ def run_case(n, edges, always_run, fail, ranks):
     return viol, info
 
 
+
+# ----------------------------------------------------------------------------------------------
+# multi-run histories:  run() ; mutate the same Batch ; run() again
+# ----------------------------------------------------------------------------------------------
+# mutation alphabet (applied to the Batch object after the first run):
+#   ('front', x)      new job N, existing job x .depends_on(N)          (a job put IN FRONT of x)
+#   ('end', x)        new job N .depends_on(x)   (x = None: independent new job at the end)
+#   ('edge', u, v, kind)   existing job v depends on existing job u (kind 'dep' | 'res'); u may be later than v,
+#                          the edge may close a cycle
+
+
+def _run_batch(env, b):
+    raised = None
+    with contextlib.redirect_stdout(io.StringIO()):
+        try:
+            b.run()
+        except HarnessError:
+            raise
+        except subprocess.CalledProcessError as e:
+            raised = e
+        except env['BatchException'] as e:
+            raised = e
+    if env['rec'].other:
+        raise HarnessError(f'LocalBackend ran a script that belongs to no job: {env["rec"].other[0][:200]!r}')
+    return raised
+
+
+def expected_rerun(n, edges, always_run, fail, done):
+    """Second run: only jobs not executed before (`done`) are candidates; statuses of THIS run propagate:
+    skipped(v) <=> not always_run(v) and some parent that is a candidate of this run failed or was skipped in it."""
+    ps = parents_of(n, edges)
+    st = {}
+    for v in topo_order(n, edges):
+        if v in done:
+            continue
+        if not always_run[v] and any(st.get(p) in ('failed', 'skipped') for p in ps[v]):
+            st[v] = 'skipped'
+        else:
+            st[v] = 'failed' if v in fail else 'ok'
+    return st
+
+
+def run_history(n, edges, always_run, fail, muts):
+    """Real DSL + LocalBackend: build, run(), apply the mutations to the same Batch, run() again; the SECOND run is
+    judged.  Returns (violations, info)."""
+    env = _env()
+    hb, rec = env['hb'], env['rec']
+    _reset_counters(env)
+    rec.reset(fail)
+    b = hb.Batch(backend=env['backend'], name='c17h')
+    jobs = []
+
+    def new_job():
+        k = len(jobs)
+        j = b.new_job(name=f'j{k}')
+        j.__dict__['_vf_rank'] = k
+        jobs.append(j)
+        j.command(f'echo MARK{k}X > {j.ofile}')
+        return k
+
+    for k in range(n):
+        new_job()
+        if always_run[k]:
+            jobs[k].always_run()
+
+    def add_edge(u, v, kind):
+        if kind == 'dep':
+            jobs[v].depends_on(jobs[u])
+        elif kind == 'res':
+            jobs[v].command(f'cat {jobs[u].ofile}')
+        else:
+            raise HarnessError(kind)
+
+    for u, v, kind in edges:
+        add_edge(u, v, kind)
+    if topo_order(n, edges) is None:
+        raise HarnessError('histories start from acyclic pipelines')
+    _run_batch(env, b)
+    calls1 = list(rec.calls)
+    exp1 = expected_status(n, edges, always_run, fail)
+    if set(calls1) != {v for v in range(n) if exp1[v] != 'skipped'}:
+        # the single-run block reports this; a history built on a wrong first run would only blur the verdict
+        return [], {'first_run_off': True}
+
+    edges2 = list(edges)
+    ar2 = list(always_run)
+    for m in muts:
+        if m[0] == 'front':
+            k = new_job()
+            ar2.append(False)
+            add_edge(k, m[1], 'dep')
+            edges2.append((k, m[1], 'dep'))
+        elif m[0] == 'end':
+            k = new_job()
+            ar2.append(False)
+            if m[1] is not None:
+                add_edge(m[1], k, 'dep')
+                edges2.append((m[1], k, 'dep'))
+        elif m[0] == 'edge':
+            add_edge(m[1], m[2], m[3])
+            edges2.append((m[1], m[2], m[3]))
+        else:
+            raise HarnessError(m)
+    n2 = len(jobs)
+    rec.calls = []
+    raised = _run_batch(env, b)
+    calls = list(rec.calls)
+    done = set(calls1)
+
+    viol = []
+    cyclic = topo_order(n2, edges2) is None
+    info = {'cyclic': cyclic, 'first_run': calls1, 'calls': calls, 'raised': type(raised).__name__ if raised else None,
+            'first_run_off': False}
+    if cyclic:
+        if calls:
+            viol.append(('second-run-cyclic-pipeline-ran-jobs',
+                         f'after run 1 (executed {calls1}) and {muts} the pipeline is cyclic, yet run 2 executed {calls}'))
+        elif raised is None:
+            viol.append(('second-run-cyclic-pipeline-not-rejected',
+                         f'after run 1 (executed {calls1}) and {muts} the pipeline is cyclic, yet run 2 returned normally'))
+        return viol, info
+    if isinstance(raised, env['BatchException']):
+        viol.append(('second-run-acyclic-pipeline-rejected', f'acyclic pipeline rejected on the second run: {raised}'))
+        return viol, info
+    ids = [j._job_id for j in jobs]
+    info['ids'] = ids
+    if any(i is None for i in ids) or len(set(ids)) != n2:
+        viol.append(('second-run-job-ids-not-distinct', f'job ids {ids}'))
+    else:
+        for u, v, kind in edges2:
+            if not ids[u] < ids[v]:
+                viol.append(('second-run-job-id-not-after-dependency',
+                             f'job {v} (id {ids[v]}) depends on job {u} (id {ids[u]}) via {kind}'))
+                break
+    if len(set(calls)) != len(calls) or set(calls) & done:
+        viol.append(('second-run-job-executed-twice', f'run 1 executed {calls1}, run 2 executed {calls}'))
+    pos = {k: i for i, k in enumerate(calls)}
+    for u, v, kind in edges2:
+        if u in pos and v in pos and not pos[u] < pos[v]:
+            viol.append(('second-run-executed-before-dependency',
+                         f'job {v} executed before its dependency {u} ({kind}); run 2 record {calls}'))
+            break
+    exp = expected_rerun(n2, edges2, ar2, fail, done)
+    info['expected'] = exp
+    exp_run = {v for v in exp if exp[v] != 'skipped'}
+    got_run = set(calls) - done
+    if got_run - exp_run:
+        viol.append(('second-run-ran-job-that-must-be-skipped', f'run 2 executed {sorted(got_run)}, expected {sorted(exp_run)}'))
+    if exp_run - got_run:
+        viol.append(('second-run-skipped-job-that-must-run', f'run 2 executed {sorted(got_run)}, expected {sorted(exp_run)}'))
+    ps = parents_of(n2, edges2)
+    info['cross_run'] = any(v in got_run and not ar2[v] and any(p in done and p in fail for p in ps[v]) for v in range(n2))
+    return viol, info
+
+
+def mutation_sets(n, edges, tier):
+    """every single mutation, and every pair {one new job, one new edge between existing jobs} (the new job is created
+    first); thorough also every pair of new edges"""
+    have = {(u, v) for u, v, _ in edges}
+    kinds = ('dep',) if tier == 'quick' else ('dep', 'res')
+    adds = [('front', x) for x in range(n)] + [('end', x) for x in [None] + list(range(n))]
+    es = [('edge', u, v, k) for u in range(n) for v in range(n) if u != v and (u, v) not in have for k in kinds]
+    out = [(m,) for m in adds + es]
+    out += [(a, e) for a in adds for e in es]
+    if tier != 'quick':
+        out += [(e1, e2) for i, e1 in enumerate(es) for e2 in es[i + 1:] if (e1[1], e1[2]) != (e2[1], e2[2])]
+    return out
+
+
+def _work_hist(item):
+    n, prefix, tier, dep_only = item
+    res = {'hist': 0, 'cyc2': 0, 'ran2': 0, 'skip2': 0, 'fail1': 0, 'ok1': 0, 'cross_run': 0, 'viol': {}, 'samples': []}
+    all_fails = [tuple(s) for r in range(n + 1) for s in itertools.combinations(range(n), r)]
+    flags = [(False,) * n] + ([tuple(i == k for i in range(n)) for k in range(n)] if tier != 'quick' and n <= 3 else [])
+    for edges in graphs(n, prefix, tier):
+        if topo_order(n, edges) is None or any(u == v for u, v, _ in edges):
+            continue
+        if dep_only and any(k != 'dep' for _, _, k in edges):
+            continue
+        for ar in flags:
+            for fail in all_fails:
+                for muts in mutation_sets(n, edges, tier):
+                    viol, info = run_history(n, edges, ar, fail, muts)
+                    res['hist'] += 1
+                    if info.get('first_run_off'):
+                        continue
+                    case = {'history': True, 'n': n, 'edges': [list(e) for e in edges], 'always_run': list(ar),
+                            'fail': list(fail), 'mutations': [list(m) for m in muts]}
+                    for sig, msg in viol:
+                        key = (n, len(muts), len(edges), len(fail), repr(case))
+                        old = res['viol'].get(sig)
+                        if old is None or key < old[0]:
+                            res['viol'][sig] = (key, msg, case)
+                    res['fail1' if fail else 'ok1'] += 1
+                    res['cross_run'] += bool(info.get('cross_run'))
+                    if info['cyclic']:
+                        res['cyc2'] += 1
+                        continue
+                    res['ran2'] += bool(info['calls'])
+                    sk = any(v == 'skipped' for v in info['expected'].values())
+                    res['skip2'] += sk
+                    if sk and len(muts) == 2 and len(res['samples']) < 1:
+                        res['samples'].append(dict(case, first_run=info['first_run'], second_run=info['calls'],
+                                                   job_ids=info['ids']))
+    res['viol'] = sorted(res['viol'].items(), key=lambda kv: kv[1][0])
+    return ('hist', n, prefix), res
+
+
 # ----------------------------------------------------------------------------------------------
 # enumeration
 # ----------------------------------------------------------------------------------------------
@@ -368,6 +576,12 @@ def _work(item):
     return (n, prefix), res
 
 
+def _dispatch(item):
+    if item[0] == 'H':
+        return _work_hist(item[1:])
+    return _work(item)
+
+
 def _set_root(path):
     global _ROOT
     _ROOT = path
@@ -382,9 +596,14 @@ def check(tier, seed, procs):
     try:
         ns = (1, 2, 3) if tier == 'quick' else (1, 2, 3, 4)
         items = [(n, pre, tier) for n in ns for pre in itertools.product(KINDS, repeat=PREFIX_LEN[n])]
-        rows = par.pmap(_work, par.rotate(items, seed), procs, chunksize=1)
+        hitems = [('H', n, pre, tier, False) for n in (2, 3) for pre in itertools.product(KINDS, repeat=PREFIX_LEN[n])]
+        if tier != 'quick':
+            hitems += [('H', 4, pre, tier, True) for pre in itertools.product(KINDS[:2], repeat=PREFIX_LEN[4])]
+        allrows = par.pmap(_dispatch, par.rotate(items + hitems, seed), procs, chunksize=1)
     finally:
         shutil.rmtree(root, ignore_errors=True)
+    rows = [r for r in allrows if r[0][0] != 'hist']
+    hrows = sorted((r for r in allrows if r[0][0] == 'hist'), key=lambda r: (r[0][1], tuple(KINDS.index(k) for k in r[0][2])))
     rows.sort(key=lambda r: (r[0][0], tuple(KINDS.index(k) for k in r[0][1])))
     keys = ('evals', 'cyclic', 'skips', 'rescues', 'multihop', 'fails', 'pipelines', 'n_cyc', 'n_res')
     tot = {k: sum(r[1][k] for r in rows) for k in keys}
@@ -395,20 +614,45 @@ def check(tier, seed, procs):
                 best[sig] = (key, msg, case)
     violations = [{'signature': sig, 'message': f'{msg}; case={case}', 'replay': case}
                   for sig, (key, msg, case) in sorted(best.items(), key=lambda kv: kv[1][0])]
+    hkeys = ('hist', 'cyc2', 'ran2', 'skip2', 'fail1', 'ok1', 'cross_run')
+    htot = {k: sum(r[1][k] for r in hrows) for k in hkeys}
+    hbest = {}
+    for _, r in hrows:
+        for sig, (key, msg, case) in r['viol']:
+            if sig not in hbest or key < hbest[sig][0]:
+                hbest[sig] = (key, msg, case)
+    violations += [{'signature': sig, 'message': f'{msg}; history={case}', 'replay': case}
+                   for sig, (key, msg, case) in sorted(hbest.items(), key=lambda kv: kv[1][0])]
     samples = [s for _, r in rows for s in r['samples']]
-    samples = samples[:: max(1, len(samples) // 4)][:4]
+    samples = samples[:: max(1, len(samples) // 3)][:3]
+    hs = [s for _, r in hrows for s in r['samples']]
+    samples += hs[:: max(1, len(hs) // 2)][:2]
     cov = {
-        'evaluations': tot['evals'],
-        'distinct_nontrivial': tot['n_cyc'] + tot['skips'],
+        'evaluations': tot['evals'] + htot['hist'],
+        'distinct_nontrivial': tot['n_cyc'] + tot['skips'] + htot['cyc2'] + htot['skip2'],
         'rule': 'distinct cyclic pipelines (must be rejected) + distinct (acyclic pipeline, always_run vector, failing '
-                'set) cases in which the reference model skips at least one job',
+                'set) cases in which the reference model skips at least one job + distinct two-run histories whose second '
+                'run is cyclic or skips at least one job',
         'samples': samples,
         'exhaustive': True,
         'bounds': f'all labelled digraphs on 1..{ns[-1]} jobs (each ordered pair: none | depends_on | resource read; '
                   'self-loop none | depends_on for n<=3, no self-loops for n=4); label = creation position (= every shape '
                   'under every creation order); acyclic: every always_run vector x every failing subset x dependency-set '
                   'iteration orders (all n! for n<=3; ascending+descending for n=4); cyclic: always_run none/all (n=4: none) '
-                  'x the same iteration orders',
+                  'x the same iteration orders.  Two-run histories: every acyclic pipeline (no self-loops) on 2..3 jobs'
+                  + (' (+ depends_on-only pipelines on 4 jobs)' if tier != 'quick' else '') + ' x every failing subset'
+                  + (' x always_run {none, each single job}' if tier != 'quick' else '') + ': run(); then every single mutation of '
+                  'the same Batch from {new job in front of x, new job after x / independent, new depends_on'
+                  + ('/resource' if tier != 'quick' else '') + ' edge between any two existing jobs incl. cycle-closing and '
+                  'earlier-on-later} and every pair {new job, new edge}' + (' and every pair of new edges' if tier != 'quick' else '')
+                  + '; run() again; the second run is judged',
+        'two_run_histories': htot['hist'],
+        'histories_whose_second_run_is_cyclic': htot['cyc2'],
+        'histories_whose_second_run_executes_jobs': htot['ran2'],
+        'histories_whose_second_run_skips_a_job': htot['skip2'],
+        'histories_with_a_failure_in_the_first_run': htot['fail1'],
+        'histories_with_an_all_success_first_run': htot['ok1'],
+        'info_second_runs_executing_a_child_of_a_job_that_failed_in_run_1': htot['cross_run'],
         'pipelines': tot['pipelines'],
         'acyclic_pipelines': tot['pipelines'] - tot['n_cyc'],
         'cyclic_pipelines': tot['n_cyc'],
@@ -423,6 +667,9 @@ def check(tier, seed, procs):
     for k in ('cyclic', 'skips', 'rescues', 'multihop'):
         if tot[k] == 0:
             vac = f'counter {k} is zero'
+    for k in ('cyc2', 'ran2', 'skip2', 'fail1', 'ok1'):
+        if htot[k] == 0:
+            vac = f'history counter {k} is zero'
     return {
         'coverage': cov,
         'violations': violations,
@@ -437,7 +684,11 @@ def check(tier, seed, procs):
             'resource-induced dependencies are bash-job reads of another job\'s declared output file; python jobs and '
             'resource groups are exercised by C18',
             'a failing command is modelled as check_call raising CalledProcessError (the only failure LocalBackend detects)',
-            'one Batch.run per pipeline (re-running a partially failed batch is outside the statement)',
+            'two-run histories: the second run is judged per run -- candidates are the jobs not executed by the first run '
+            '(skipped ones and new ones); a job is skipped iff not always_run and a parent failed or was skipped IN THAT RUN; '
+            'jobs already executed are never executed again.  That LocalBackend executes, on a re-run, children of a job '
+            'that failed in the earlier run is counted (info_...) but not judged: the statement does not say how failures '
+            'carry across runs',
             'inert stand-ins: rich, dill, google/azure/boto SDKs (imported by hailtop.batch, never touched here)',
         ],
         'vacuous': vac,
@@ -451,7 +702,11 @@ def replay(obj):
     _set_root(root)
     try:
         edges = tuple((u, v, k) for u, v, k in obj['edges'])
-        viol, info = run_case(obj['n'], edges, tuple(obj['always_run']), tuple(obj['fail']), tuple(obj['ranks']))
+        if obj.get('history'):
+            muts = tuple(tuple(m) for m in obj['mutations'])
+            viol, info = run_history(obj['n'], edges, tuple(obj['always_run']), tuple(obj['fail']), muts)
+        else:
+            viol, info = run_case(obj['n'], edges, tuple(obj['always_run']), tuple(obj['fail']), tuple(obj['ranks']))
     finally:
         shutil.rmtree(root, ignore_errors=True)
     if viol:
